@@ -809,9 +809,58 @@ func genCdcnParse(prop string, seed uint64, tier, outDir string, count int) erro
 			fmt.Sprintf("same outcome under perturbed schedules: %v %s", c.stable, c.note),
 		})
 	}
+	// the property's own predicates on the observed behaviour of the real code, per case
+	var predViol []map[string]any
+	knownText := nested(17, "1", true)
+	knownCase := -1
+	depthPanics := 0
+	for i, c := range cases {
+		if c.src == knownText && knownCase < 0 {
+			knownCase = i
+		}
+		var bad []string
+		switch c.obs.kind {
+		case "runtime":
+			bad = append(bad, "C12: ParseSource ended in a Go runtime error: "+c.obs.msg)
+		case "hang":
+			bad = append(bad, "C12: ParseSource did not return within the watchdog time")
+		case "panic":
+			if c.obs.code == 1 {
+				depthPanics++ // the known finding C12-set-depth-limit (reported below, not as a violation)
+			} else {
+				bad = append(bad, "C12: ParseSource panicked with a text that is not a located syntax diagnostic: "+c.obs.msg)
+			}
+		}
+		if c.leak {
+			bad = append(bad, "C12: a scanner goroutine (frame scanTokens) was still there after ParseSource had returned or panicked")
+		}
+		if !c.stable {
+			bad = append(bad, "C11: re-parsing the same text under a perturbed goroutine schedule gave another outcome: "+c.note)
+		}
+		if len(bad) > 0 {
+			predViol = append(predViol, map[string]any{"case": i, "violated": bad})
+		}
+	}
+	// known finding C12-set-depth-limit: replay the exact input on every run
+	kobs := observeParse(cdc.Notation().Make(), knownText, 3*time.Second)
+	kf := map[string]any{"id": "C12-set-depth-limit", "detail": kobs.human(), "input": "a (Set) literal with two members nested 17 (List) levels deep",
+		"other_cases_with_the_same_panic": depthPanics}
+	switch {
+	case kobs.kind == "panic" && kobs.code == 1:
+		kf["still_fails"] = true
+	case kobs.kind == "value" || kobs.kind == "syntax":
+		kf["still_fails"] = false
+	default:
+		kf["still_fails"] = true
+		predViol = append(predViol, map[string]any{"case": knownCase, "violated": []string{"C12: the known-finding input C12-set-depth-limit now ends in a third way: " + kobs.human()}})
+	}
 	meta.Cases = len(cases)
 	meta.Rule = "each case is one source text: hand-written corner texts, every prefix and an illegal character at every token boundary of one multi-line document, deep nests, then seeded random texts (derivations of Syntax.cdsn with every literal class and boundary literal, inline/multi-line/empty forms, all seven contexts; the same with inexact literals and value lists under Catalog/Map; one or two mutations of a derivation — prefix, delete/insert/substitute a rune, swap/delete/duplicate/replace a token, illegal character at a token boundary; arbitrary runes and bytes); a case counts as distinct and non-trivial when its text has at least 3 tokens and differs from every other text of the run"
-	meta.Extra = map[string]any{"core_texts": ncore, "input_kinds": meta.OpHist, "tokens_by_type": meta.TypeHist}
+	meta.Extra = map[string]any{"core_texts": ncore, "input_kinds": meta.OpHist, "tokens_by_type": meta.TypeHist,
+		"known_finding_observations": []map[string]any{kf}}
+	if len(predViol) > 0 {
+		meta.Extra["predicate_violations"] = predViol
+	}
 	for i := 0; i < 3 && len(cases) > 0; i++ {
 		meta.Samples = append(meta.Samples, meta.Traces[ncore+(i*(len(cases)-ncore))/3])
 	}
